@@ -33,6 +33,7 @@ Expected(pre, r) ==
                              THEN Fine([pre EXCEPT !.nxt.wds = Append(@, [a |-> r.a, pct |-> r.pct])])
                              ELSE Fail(pre)
      [] r.op = "deliver"  -> Handle(pre, r.remote, r.perm, r.newId)
+     [] r.op = "fallback" -> HandleFallback(pre, r.remote, r.perm, r.newId, Fn(r.rpts, Holder), r.rtot)
 
 Sound(st, c) == HoldingEq(st) /\ PointsSum(st) /\ Supply(st) = sup[c]
 
